@@ -820,7 +820,17 @@ namespace adept {
       }
 
 
-      bool empty() { return dimensions_[0] == 0; }
+      // The indexed array has no elements if any of its dimensions is
+      // zero (an empty index vector or range in any position, not just
+      // the first); the assignment loops must then not run at all
+      bool empty() {
+	for (int i = 0; i < Rank; ++i) {
+	  if (dimensions_[i] == 0) {
+	    return true;
+	  }
+	}
+	return false;
+      }
       
       // Declare I as it is used before it is defined
       template<int Dim> struct Ix;
